@@ -308,6 +308,14 @@ func TestC10(t *testing.T) {
 		func(p c09Live) *viol { return c09RunLive(t, st, p) })
 	// a genuine contribution cannot be replayed into another step of the signing phase: a participant's answer to one
 	// batch, arriving (or re-posted) while a later batch with the very same message ids is open, counts for nothing there
+	// nobody can speak for a participant whose registered key cannot verify anything (see c09_badkey_test.go)
+	rapidProp(t, st, "unusable-keys", perShard(pick(200, 4000)), 4, c09GenBadKey, func(p c09BadKeyPlan) *viol {
+		v := c09RunBadKey(t, st, p)
+		if v != nil && v.Key == "accepted:unusable-key" {
+			v.Key = "spoke-for-participant-with-unusable-key"
+		}
+		return v
+	})
 	rapidProp(t, st, "answers-across-batches", perShard(pick(96, 2400)), 3, c10GenAcross, func(p tPlan) *viol { return c10RunAcross(t, st, p) })
 }
 
